@@ -377,6 +377,10 @@ func runC16IO(c c16IOCase) (sig, msg string) {
 				return "io-write", fmt.Sprintf("Write(%d) = %d, %v", len(d), n, err)
 			}
 			written += n
+			// an io.Writer must not retain p: the caller is free to reuse its slice at once (io.Copy does)
+			for j := range d {
+				d[j] = 0x5A
+			}
 			if lb.Len() != written-read {
 				return "io-write-visible", fmt.Sprintf("after Write the buffer holds %d bytes, want %d", lb.Len(), written-read)
 			}
